@@ -93,8 +93,8 @@ pub fn multipart_form_must_reject(bytes: &[u8]) -> Option<&'static str> {
         let (phead, pbody) = part.split_once("\r\n\r\n")?;
         if pbody.contains("--XB") { return None; }
         // only header blocks of printable ASCII are judged (the server drops control characters from header lines before it reads them:
-        // 'n<TAB>ame="a"' is a name parameter to it - a first version of this rule called that part nameless and raised a false alarm, seed 104)
-        if !phead.bytes().all(|b| (0x20..0x7f).contains(&b) || b == b'\r' || b == b'\n') { return None; }
+        // 'n<TAB>ame="a"' is a name parameter to it - earlier versions of this rule called that part nameless and raised a false alarm: a TAB on quick seed 104, a bare CR on thorough seed 2)
+        if !phead.split("\r\n").all(|line| line.bytes().all(|b| (0x20..0x7f).contains(&b))) { return None; }
         let mut disp: Vec<&str> = vec![];
         for l in phead.split("\r\n") { let (n, v) = l.split_once(": ")?; if !n.bytes().all(|b| b.is_ascii_alphanumeric() || b == b'-') { return None; } if n.eq_ignore_ascii_case("content-disposition") { disp.push(v); } }
         if disp.len() != 1 { return None; }
